@@ -276,7 +276,9 @@ pub fn c16_families(tier: Tier) -> Vec<Family> {
             // evicting programs branch on every victim: bound them; the plain ones saturate
             let b2 = if tier == Tier::Quick { 3 } else if policy == Policy::None { 64 } else { 5 };
             fams.push(Family { name: format!("2x1/{}/{}", pname, kname), programs: p2, opts: SchedOpts { max_bound: b2, ..o } });
-            fams.push(Family { name: format!("3x1/{}/{}", pname, kname), programs: p3, opts: o });
+            // quick: every victim of every eviction is a branch - 3 evicting clients get bound 1
+            let b3 = if tier == Tier::Quick && policy != Policy::None { 1 } else { o.max_bound };
+            fams.push(Family { name: format!("3x1/{}/{}", pname, kname), programs: p3, opts: SchedOpts { max_bound: b3, ..o } });
             if !p22.is_empty() {
                 fams.push(Family { name: format!("2x2/{}/{}", pname, kname), programs: p22, opts: SchedOpts { max_bound: 2, ..o } });
             }
